@@ -45,7 +45,7 @@ def is_module_abort(msg):
     return 'expression simplifies to' in msg or 'failed to simplify' in msg
 
 
-def build(extra_mods=(), force_assumed=()):
+def build(extra_mods=(), force_assumed=(), drop_ghost=()):
     """Returns dict with text, registry (clauses), logs, assumed, fn line ranges."""
     by_mod, allc = load_contracts()
     for c in allc:
@@ -125,7 +125,7 @@ def build(extra_mods=(), force_assumed=()):
                       % dict(t, pre=pre, post=post, rn=rn))
         gp = os.path.join(VERIF, 'spec', 'mod_%s.vrs' % m)
         if os.path.exists(gp):
-            ghost += '\n// ---- ghost additions (G1) from spec/mod_%s.vrs\n' % m + open(gp).read()
+            ghost += '\n// ---- ghost additions (G1) from spec/mod_%s.vrs\n' % m + drop_items(open(gp).read(), [d_[1] for d_ in drop_ghost if d_[0] == m], logs[m])
         globs = ''.join('use crate::%s::*;\n' % o for o in mods if o != m)
         chunks.append('pub mod %s {\nuse vstd::prelude::*;\nuse crate::iso::*;\n%sverus! {\n%s\n%s\n}\n} // @endmod\n' % (m, globs, spliced, ghost))
     iso_chunks = []
@@ -157,6 +157,76 @@ def build(extra_mods=(), force_assumed=()):
             bodies[m + '::' + q_] = [hashlib.sha1(' '.join(extracted[m][kw_:bc_ + 1].split()).encode()).hexdigest()[:16],
                                      shape_hash(extracted[m][kw_:bc_ + 1])]
     return {'text': text, 'registry': registry, 'logs': logs, 'contracts': allc, 'lost': lost_all, 'bodies': bodies}
+
+
+def ghost_item_at(text, line):
+    """(module, first line of the item) of the ghost-addition item (spec/mod_<m>.vrs text inside module m) that
+    contains `line` of the generated text, or None when the line is not inside ghost additions."""
+    import rustlex
+    lines = text.split('\n')
+    mod_, start_ = None, None
+    for i in range(min(line, len(lines)) - 1, -1, -1):
+        mm = re.match(r'// ---- ghost additions \(G1\) from spec/mod_(\w+)\.vrs', lines[i])
+        if mm:
+            mod_, start_ = mm.group(1), i + 1
+            break
+        if lines[i].startswith('} // @endmod') or lines[i].startswith('pub mod '):
+            return None
+    if mod_ is None:
+        return None
+    end_ = start_
+    while end_ < len(lines) and not lines[end_].startswith('} // @endmod'):
+        end_ += 1
+    region = '\n'.join(lines[start_:end_ - 1])
+    msk = rustlex.mask(region)
+    off = sum(len(l) + 1 for l in lines[start_:line - 1])
+    # items start at column 0 in the spec files
+    pos = 0
+    best = None
+    for mm in re.finditer(r'(?m)^(?=[A-Za-z#])', msk):
+        if mm.start() < pos:
+            continue
+        st = mm.start()
+        j = rustlex.skip_attrs_and_docs(region, msk, st)
+        try:
+            en = rustlex.item_end(msk, j)
+        except Exception:
+            break
+        if st <= off < en:
+            best = region[j:region.find('\n', j) if region.find('\n', j) >= 0 else len(region)].strip()
+            break
+        pos = en
+    return (mod_, best) if best else None
+
+
+def drop_items(text, first_lines, log):
+    """Remove the column-0 items of a spec file whose first line (after attributes/docs) is in first_lines."""
+    if not first_lines:
+        return text
+    import rustlex
+    msk = rustlex.mask(text)
+    out, pos = [], 0
+    for mm in re.finditer(r'(?m)^(?=[A-Za-z#])', msk):
+        st = mm.start()
+        if st < pos:
+            continue
+        j = rustlex.skip_attrs_and_docs(text, msk, st)
+        try:
+            en = rustlex.item_end(msk, j)
+        except Exception:
+            break
+        nl = text.find('\n', j)
+        first = text[j:nl if nl >= 0 else len(text)].strip()
+        if first in first_lines:
+            out.append(text[pos:st])
+            out.append('// [dropped: no longer compiles against this tree] ' + first[:120] + '\n')
+            log.append('G-DROP ghost item dropped (does not compile against this tree): ' + first[:120])
+            pos = en
+        else:
+            out.append(text[pos:en])
+            pos = en
+    out.append(text[pos:])
+    return ''.join(out)
 
 
 _SHAPE_KW = {'for', 'while', 'loop', 'if', 'else', 'match', 'let', 'return', 'break', 'continue', 'fn', 'const', 'in'}
